@@ -38,7 +38,9 @@ a = Bits(N, A); b = Bits(M, B); k = K
 exp = py_expected(%(name)r, %(form)r, N, A, B, K, M)
 try:
   r = %(impl)s
+  r2 = %(impl)s
   got = ('val', int(r._uint), r.nbits) if (r is not a and r is not b) else ('aliases an operand',)
+  if r2 is r: got = ('two evaluations return the same mutable object',)
   rng = 0 <= r._uint < 2**r.nbits
 except Exception as e:
   got = ('exc', type(e).__name__); rng = True
@@ -83,6 +85,7 @@ def item_bin(it):
     a = sp.PB._new_valid_bits(n, sa); b = sp.PB._new_valid_bits(m, sb)
     r = eval(code, {'a': a, 'b': b, 'k': sk})
     if r is a or r is b: raise AssertionError('the result aliases an operand (Bits values are mutable)')
+    if eval(code, {'a': a, 'b': b, 'k': sk}) is r: raise AssertionError('two evaluations return the same mutable object')
     return {'r': r}
 
   def replay(mdl, what):
